@@ -1012,19 +1012,23 @@ class Interp:
             return
         it = yield from self.ev(st.iter, fr)
         itr = yield from self.get_iter(it)
-        while True:
-            try:
-                x = yield from self.iter_next(itr)
-            except _IterStop:
-                yield from self.ex_block(st.orelse, fr)
-                return
-            yield from self.assign(st.target, x, fr)
-            try:
-                yield from self.ex_block(st.body, fr)
-            except BreakSig:
-                return
-            except ContinueSig:
-                pass
+        fr.ctx.append(("for", st.lineno, itr))     # the iterator position is part of the control state (cut keys)
+        try:
+            while True:
+                try:
+                    x = yield from self.iter_next(itr)
+                except _IterStop:
+                    yield from self.ex_block(st.orelse, fr)
+                    return
+                yield from self.assign(st.target, x, fr)
+                try:
+                    yield from self.ex_block(st.body, fr)
+                except BreakSig:
+                    return
+                except ContinueSig:
+                    pass
+        finally:
+            fr.ctx.pop()
 
     def ex_Break(self, st, fr):
         raise BreakSig()
@@ -1589,16 +1593,22 @@ class Interp:
         else:
             it = yield from self.ev(g.iter, fr if i else fr.parent_for_first_iter)
         items = yield from self.iterate(it)
-        for x in items:
-            yield from self.assign(g.target, x, fr)
-            ok = True
-            for c in g.ifs:
-                cv = yield from self.ev(c, fr)
-                if not self.truth(cv, f"comp-if@L{c.lineno}"):
-                    ok = False
-                    break
-            if ok:
-                yield from self._comp(gens, fr, emit, i + 1)
+        pos = _ListIter(items)
+        fr.ctx.append(("for", getattr(g.iter, "lineno", 0), pos))
+        try:
+            for x in items:
+                pos.i += 1
+                yield from self.assign(g.target, x, fr)
+                ok = True
+                for c in g.ifs:
+                    cv = yield from self.ev(c, fr)
+                    if not self.truth(cv, f"comp-if@L{c.lineno}"):
+                        ok = False
+                        break
+                if ok:
+                    yield from self._comp(gens, fr, emit, i + 1)
+        finally:
+            fr.ctx.pop()
 
     def _comp_frame(self, e, fr):
         loc = set()
@@ -1643,7 +1653,26 @@ class Interp:
         return out
 
     def ev_GeneratorExp(self, e, fr):
-        return _ListIter((yield from self.ev_ListComp(e, fr)))
+        """a generator expression is a real (lazy) generator object; its first iterable is evaluated now"""
+        cf = self._comp_frame(e, fr)
+        first = yield from self.ev(e.generators[0].iter, fr)
+        if isinstance(first, Opaque) and first.spec.get("iter_generic") is not None:
+            return _ListIter((yield from self.ev_ListComp(e, fr)))
+        cf.first_iter_value = first
+
+        def body():
+            def emit(f):
+                v = yield from self.ev(e.elt, f)
+                cf.loc = (e.lineno, e.col_offset)
+                self.nyields += 1
+                tok = yield ("Y", v)
+                if tok[0] == "throw":
+                    raise PyRaise(tok[1])
+                if tok[0] == "close":
+                    raise PyRaise(self.mkexc("GeneratorExit"))
+            yield from self._comp(e.generators, cf, emit)
+            return None
+        return GenObj(self, cf, body, "<genexpr>")
 
     def ev_SetComp(self, e, fr):
         return self.make_set((yield from self.ev_ListComp(e, fr)))
@@ -1749,7 +1778,7 @@ class Interp:
 
     # ------------------------------------------------------------------ iteration
     def get_iter(self, v):
-        if isinstance(v, (GenObj, AbsGen, _ListIter)):
+        if isinstance(v, (GenObj, AbsGen, _ListIter, _LiveIter)):
             return v
         if isinstance(v, (list, tuple, collections.deque)):
             return _LiveIter(v)
